@@ -5,7 +5,7 @@
     is reachable from the empty storage by a fault-free history of obtain / renew / manage /
     revocation (by the CA, or RevokeCert) steps for the subject, with arbitrary issuer answers". *)
 From Coq Require Import List NArith ZArith Bool.
-From CM Require Import Bundle.Model Bundle.Proofs Bundle.Recency Bundle.Faults Bundle.ErrSucc Bundle.Check Bundle.Sound6 Gen.Consts.
+From CM Require Import Bundle.Model Bundle.Proofs Bundle.Recency Bundle.Faults Bundle.ErrSucc Bundle.Async Bundle.LogKeys Bundle.Check Bundle.Sound6 Bundle.SoundLog Gen.Consts.
 Import ListNotations.
 Open Scope N_scope.
 
@@ -36,6 +36,56 @@ Proof.
   intros pl cfg sp orc h w r HR. apply success_bundle_complete_under_faults. apply reach6_inv, HR.
 Qed.
 Print Assumptions C06_success_bundle_complete_under_faults.
+
+(** * the retrying entry points (ObtainCertAsync / RenewCertAsync; the closure ManageAsync, on-demand issuance
+    and forceRenew run), with or without a cancelled context ([Async.run_async]: renew?, force, Some nrun =
+    cancelled with nrun attempts run). A reported success - after any number of failed attempts, whatever the
+    issuers answered in each - leaves a complete matching bundle for the subject. *)
+Theorem C06_async_success_bundle_complete : forall cfg sp o more op w,
+  reach6 cfg sp (w_core w) -> canonical sp -> (forall o', In o' (o :: more) -> oracle_ok cfg o') ->
+  fst (run_async cfg sp o more op w) = Ok tt ->
+  exists i, In i (issuers cfg) /\
+    exists k x m, bundle_at (w_st (snd (run_async cfg sp o more op w))) i (s_save sp) = Some (i, k, x, m) /\
+                  c_pub x = k /\ c_sub x = s_id sp.
+Proof. intros cfg sp o more op w HR. apply async_success_bundle_complete. apply reach6_inv, HR. Qed.
+Print Assumptions C06_async_success_bundle_complete.
+
+(** a cancellation that wins before the first attempt never reports success, under any fault plan: a
+    renewal fails; an obtain can only "succeed" as the no-op of its pre-check (a complete bundle was there) *)
+Theorem C06_cancelled_renew_never_succeeds : forall pl cfg sp o more f w,
+  fst (renew_async_c pl cfg sp o more f 0 w) <> Ok tt.
+Proof. exact cancelled_renew_never_succeeds. Qed.
+Print Assumptions C06_cancelled_renew_never_succeeds.
+Theorem C06_cancelled_obtain_success_is_noop : forall pl cfg sp o more w,
+  fst (obtain_async_c pl cfg sp o more 0 w) = Ok tt ->
+  w_st (snd (obtain_async_c pl cfg sp o more 0 w)) = w_st w /\
+  exists i, In i (issuers cfg) /\ complete (w_st w) i (s_pre sp) = true.
+Proof. exact cancelled_obtain_success_is_noop. Qed.
+Print Assumptions C06_cancelled_obtain_success_is_noop.
+
+(** the log clause: WITHOUT key reuse every issuer call an operation makes - under ANY fault plan, in every
+    attempt of a retried or cancelled asynchronous call, in the obtain after a key quarantine - is for a key
+    generated in that same operation: the segment the operation adds to the log ([emits]) contains the
+    generation of every key an issuer was asked to certify ([fresh_seg]) *)
+Theorem C06_fresh_key_in_log : forall pl cfg sp orc h,
+  reuse cfg = false -> emits (run_hop pl cfg sp orc h) fresh_seg.
+Proof. exact fresh_key_in_log. Qed.
+Print Assumptions C06_fresh_key_in_log.
+Theorem C06_fresh_key_in_log_async : forall pl cfg sp o more f,
+  reuse cfg = false ->
+  emits (obtain_async pl cfg sp o more) fresh_seg /\ emits (renew_async pl cfg sp o more f) fresh_seg /\
+  (forall n, emits (obtain_async_c pl cfg sp o more n) fresh_seg) /\
+  (forall n, emits (renew_async_c pl cfg sp o more f n) fresh_seg).
+Proof. exact fresh_key_in_log_async. Qed.
+Print Assumptions C06_fresh_key_in_log_async.
+(** ... which is exactly the monitor's clause ([Check.spec_log], no reuse) on the model's own observation of
+    every kind of step the check replays: plain, with failing Storage calls, retried, cancelled *)
+Theorem C06_monitor_sound_log_fresh : forall pl cfg sp w h orc more cancel,
+  reuse cfg = false ->
+  let o := fst (model_step_r pl cfg sp w h orc more cancel) in
+  forallb (fun ik => generated (ob_log o) (snd ik)) (issued_ok (ob_log o)) = true.
+Proof. exact monitor_sound_log_fresh. Qed.
+Print Assumptions C06_monitor_sound_log_fresh.
 
 (** saving a bundle and loading that issuer's bundle back yields exactly what was saved *)
 Theorem C06_load_roundtrip : forall c i d k x m,
@@ -327,3 +377,15 @@ Example C06_faulted_success_and_faulted_error :
   fst (run_hop (single_error 8) cfg w6_sp orc HObtain empty_world) = Fail EInjected /\
   w_st (snd (run_hop (single_error 8) cfg w6_sp orc HObtain empty_world)) = [].
 Proof. vm_compute. repeat split. Qed.
+
+(** retried and cancelled calls on concrete worlds: [fail, ok] succeeds on the second attempt with the second
+    generated key (key 1; key 0 of the failed attempt is not stored); a cancellation before the first attempt
+    is an error; the log of the retried call contains both generations *)
+Example C06_async_examples :
+  let cfg := Config 1 false false in
+  let r := obtain_async no_faults cfg w6_sp (Oracle [None] []) [Oracle [w6_up 20] []] empty_world in
+  fst r = Ok tt /\ dir_key (w_st (snd r)) 0 0 = Some 1 /\ length (w_st (snd r)) = 3%nat /\
+  In (LGen 0) (w_log (snd r)) /\ In (LGen 1) (w_log (snd r)) /\
+  fst (obtain_async_c no_faults cfg w6_sp (Oracle [w6_up 20] []) [] 0 empty_world) = Fail EOther /\
+  fst (run_async cfg w6_sp (Oracle [None] []) [Oracle [w6_up 20] []] (false, false, Some 2%nat) empty_world) = Ok tt.
+Proof. vm_compute. repeat split; auto 10. Qed.
